@@ -109,11 +109,11 @@ Section Registry.
   Record CInv (cs : cstate) : Prop := {
     ci_cnr : forall cid c, cnrs cs !! cid = Some c ->
              cid = cid_of (c_val c) /\ exists o, owner_is c o /\ oidx cs !! (o ++ cid) = Some cid;
-    ci_idx : forall k v, oidx cs !! k = Some v ->
+    ci_idx : forall k v : bytes, oidx cs !! k = Some v ->
              exists c o, cnrs cs !! v = Some c /\ owner_is c o /\ k = o ++ v;
     ci_dead : forall cid, cid ∈ tomb cs -> cnrs cs !! cid = None;
     ci_eacl : forall cid e, eacls cs !! cid = Some e -> is_Some (cnrs cs !! cid);
-    ci_alias : forall cid d, aliases cs !! cid = Some d ->
+    ci_alias : forall (cid d : bytes), aliases cs !! cid = Some d ->
                is_Some (cnrs cs !! cid) /\ nonempty d = true;
     ci_meta : forall cid, cid ∈ metas cs -> is_Some (cnrs cs !! cid)
   }.
@@ -217,5 +217,548 @@ Section Registry.
       rewrite lookup_delete_ne by congruence. eauto.
     - intros k Hk. apply elem_of_difference in Hk as [Hk Hne].
       rewrite lookup_delete_ne; [eauto|]. intros <-. apply Hne. apply elem_of_singleton. reflexivity.
+  Qed.
+
+  (** ** Every invocation preserves the invariant *)
+
+  Lemma domain_nonempty cs name zone : nonempty (domain_of cs name zone) = true.
+  Proof. unfold domain_of. destruct name; reflexivity. Qed.
+
+  (** The container state after a successful put, as a function of the pre-state. *)
+  Definition put_state (cs : cstate) (blob owner : bytes) (c' : cnr) (nm : option bytes)
+      (meta : bool) : cstate :=
+    let cid := cid_of blob in
+    let cs0 := if meta then set_meta cs cid else cs in
+    let cs1 := add_container cs0 cid owner c' in
+    match nm with Some d => set_alias cs1 cid (Some d) | None => cs1 end.
+
+  Definition name_opt (root name zone : bytes) : option bytes :=
+    if nonempty name then Some (name ++ dot :: (if nonempty zone then zone else root)) else None.
+
+  Lemma put_state_eq c w o blob sig pub tok name zone w' r ns :
+    put_shape o = Some (blob, sig, pub, tok, name, zone) ->
+    wexec c w o = Halt (w', r, ns) ->
+    exists owner, owner_of_blob blob = Halt owner /\ cid_of blob ∉ tomb (w_c w) /\
+      w_c w' = put_state (w_c w) blob owner (mkCnr blob sig pub tok)
+                 (name_opt (nroot (w_c w)) name zone) (meta_flag o).
+  Proof.
+    intros Hs H. destruct (wexec_put _ _ _ _ _ _ _ _ _ _ _ _ _ _ Hs H) as [_ Hp].
+    destruct (put_named_inv _ _ _ _ _ _ _ _ _ _ _ _ Hp)
+      as [owner fee0 fee b' bns n' id' need Hown Hdead _ _ _ _ _ _ _ _ _ _ Hw _].
+    rewrite pre_put_tomb in Hdead.
+    exists owner. split; [exact Hown|]. split; [exact Hdead|]. subst w'. cbn [w_c].
+    unfold put_state, name_opt, domain_of. rewrite pre_put_nroot. unfold pre_put.
+    destruct (meta_flag o), (nonempty name); reflexivity.
+  Qed.
+
+  Lemma CInv_put_state cs blob owner c' nm meta :
+    CInv cs -> owner_of_blob blob = Halt owner -> c_val c' = blob -> cid_of blob ∉ tomb cs ->
+    (forall d, nm = Some d -> nonempty d = true) ->
+    CInv (put_state cs blob owner c' nm meta).
+  Proof.
+    intros HI Ho Hv Hd Hnm. unfold put_state.
+    assert (H1 : CInv (add_container (if meta then set_meta cs (cid_of blob) else cs) (cid_of blob) owner c')).
+    { apply (CInv_add cs); auto; destruct meta; try reflexivity.
+      - cbn [set_meta metas]. intros x Hx. apply elem_of_union in Hx as [Hx|Hx]; [right|left; exact Hx].
+        apply elem_of_singleton in Hx. exact Hx.
+      - auto. }
+    destruct nm as [d|]; [|exact H1].
+    apply CInv_set_alias; [exact H1| |auto].
+    unfold add_container. cbn [cnrs]. rewrite lookup_insert. eauto.
+  Qed.
+
+  Lemma name_opt_nonempty root name zone d : name_opt root name zone = Some d -> nonempty d = true.
+  Proof.
+    unfold name_opt. destruct (nonempty name) eqn:E; [|discriminate]. intros [= <-].
+    destruct name; [discriminate|reflexivity].
+  Qed.
+
+  (** The container state after a successful delete of a live container. *)
+  Definition del_state (cs : cstate) (cid owner : bytes) : cstate :=
+    remove_container (set_alias cs cid None) cid owner.
+
+  Lemma del_state_eq c w cid sig tok w' ns :
+    CInv (w_c w) ->
+    delete_cnr c w cid sig tok = Halt (w', ns) ->
+    (cnrs (w_c w) !! cid = None /\ w' = w /\ ns = []) \/
+    (exists cn owner, cnrs (w_c w) !! cid = Some cn /\ owner_is cn owner /\ x_alpha c = true /\
+       w_c w' = del_state (w_c w) cid owner /\ ns = [NDel cid] /\
+       w_b w' = w_b w /\ w_cfg w' = w_cfg w /\ w_id w' = w_id w /\
+       match aliases (w_c w) !! cid with
+       | Some d => delete_nns_records c (w_n w) d = Halt (w_n w')
+       | None => w_n w' = w_n w
+       end).
+  Proof.
+    intros HI H. destruct (delete_inv _ _ _ _ _ _ _ H) as [Hn -> ->|cn owner n' Hc Ho Hal Hn Hw Hns].
+    - left. split; [|auto]. apply get_owner_none in Hn as [Hn|(c0 & Hc0 & He)]; [exact Hn|].
+      exfalso. destruct (ci_cnr _ HI _ _ Hc0) as (_ & o & Ho & _).
+      apply owner_blob_nonempty in Ho. congruence.
+    - right. exists cn, owner. subst w'. cbn [w_c w_b w_cfg w_id w_n].
+      split; [exact Hc|]. split; [exact Ho|]. split; [exact Hal|].
+      destruct (aliases (w_c w) !! cid) as [d|] eqn:Ed.
+      + destruct (ci_alias _ HI _ _ Ed) as [_ Hd]. rewrite Hd in Hn |- *. auto 10.
+      + unfold del_state. rewrite set_alias_none_id by exact Ed. auto 10.
+  Qed.
+
+  Lemma CInv_del_state cs cid cn owner :
+    CInv cs -> cnrs cs !! cid = Some cn -> owner_is cn owner -> CInv (del_state cs cid owner).
+  Proof.
+    intros HI Hc Ho. unfold del_state. eapply (CInv_remove cs); eauto.
+  Qed.
+
+  Lemma wexec_other c w o w' r ns :
+    put_shape o = None -> (forall cid s t, o <> Delete cid s t) -> (forall e s p t, o <> SetEACL e s p t) ->
+    wexec c w o = Halt (w', r, ns) -> w_c w' = w_c w /\ (forall n, In n ns -> exists b, n = NBal b).
+  Proof.
+    intros Hs Hd He H. destruct o; try discriminate; cbn [Container.wexec] in H.
+    - exfalso. eapply Hd; eauto.
+    - exfalso. eapply He; eauto.
+    - obind H as [[b' r'] ns'] E. injection H as <- _ <-. split; [reflexivity|].
+      intros n Hn. apply in_map_iff in Hn as (b & <- & _). eauto.
+    - obind H as u E. injection H as <- _ <-. split; [reflexivity|]. intros n [].
+    - obind H as [n' r'] E. injection H as <- _ <-. split; [reflexivity|]. intros n [].
+    - obind H as n' E. injection H as <- _ <-. split; [reflexivity|]. intros n [].
+    - obind H as n' E. injection H as <- _ <-. split; [reflexivity|]. intros n [].
+  Qed.
+
+  Lemma wexec_CInv c w o w' r ns :
+    CInv (w_c w) -> wexec c w o = Halt (w', r, ns) ->
+    CInv (w_c w') /\ nroot (w_c w') = nroot (w_c w).
+  Proof.
+    intros HI H. destruct (put_shape o) as [[[[[[blob sig] pub] tok] name] zone]|] eqn:Hs.
+    { destruct (put_state_eq _ _ _ _ _ _ _ _ _ _ _ _ Hs H) as (owner & Ho & Hd & ->). split.
+      - apply CInv_put_state; auto. intros d. apply name_opt_nonempty.
+      - unfold put_state. destruct (name_opt _ _ _), (meta_flag o); reflexivity. }
+    destruct o; try discriminate.
+    - cbn [Container.wexec] in H. obind H as [w1 ns1] E. injection H as <- _ _.
+      destruct (del_state_eq _ _ _ _ _ _ _ HI E) as [(_ & -> & _)|(cn & owner & Hc & Ho & _ & -> & _)]; [auto|].
+      split; [eapply CInv_del_state; eauto|reflexivity].
+    - cbn [Container.wexec] in H. obind H as [w1 ns1] E. injection H as <- _ _.
+      destruct (set_eacl_inv _ _ _ _ _ _ _ _ E) as [cid cn owner _ Hc _ _ _ -> _]. cbn [w_c].
+      split; [apply CInv_set_eacl; eauto|reflexivity].
+    - destruct (wexec_other _ _ _ _ _ _ Hs ltac:(discriminate) ltac:(discriminate) H) as [-> _]. auto.
+    - destruct (wexec_other _ _ _ _ _ _ Hs ltac:(discriminate) ltac:(discriminate) H) as [-> _]. auto.
+    - destruct (wexec_other _ _ _ _ _ _ Hs ltac:(discriminate) ltac:(discriminate) H) as [-> _]. auto.
+    - destruct (wexec_other _ _ _ _ _ _ Hs ltac:(discriminate) ltac:(discriminate) H) as [-> _]. auto.
+    - destruct (wexec_other _ _ _ _ _ _ Hs ltac:(discriminate) ltac:(discriminate) H) as [-> _]. auto.
+  Qed.
+
+  Lemma wstep_CInv w co :
+    CInv (w_c w) -> CInv (w_c (fst (fst (wstep w co)))) /\
+                    nroot (w_c (fst (fst (wstep w co)))) = nroot (w_c w).
+  Proof.
+    intros HI. destruct (wstep_cases cid_of b58 w co) as [(w' & r & ns & He & ->)|(_ & ->)]; [|auto].
+    cbn [fst]. eapply wexec_CInv; eauto.
+  Qed.
+
+  Lemma wrun_CInv w ops :
+    CInv (w_c w) -> CInv (w_c (wrun_from w ops)) /\ nroot (w_c (wrun_from w ops)) = nroot (w_c w).
+  Proof.
+    unfold Container.wrun_from. revert w. induction ops as [|co ops IH]; intros w HI; [auto|].
+    cbn [fold_left]. destruct (wstep_CInv w co HI) as [H1 H2].
+    destruct (IH _ H1) as [H3 H4]. split; [exact H3|congruence].
+  Qed.
+
+  (** ** Abstraction to the registry spec *)
+
+  Definition info_of (cs : cstate) (cid : bytes) (c : cnr) : info :=
+    mkInfo c (eacls cs !! cid) (aliases cs !! cid) (bool_decide (cid ∈ metas cs)).
+
+  Definition abs (cs : cstate) : registry :=
+    mkReg (map_imap (fun cid c => Some (info_of cs cid c)) (cnrs cs)) (tomb cs).
+
+  Lemma abs_live cs k : live (abs cs) !! k = info_of cs k <$> (cnrs cs !! k).
+  Proof.
+    unfold abs. cbn [live]. rewrite map_lookup_imap. destruct (cnrs cs !! k); reflexivity.
+  Qed.
+
+  Lemma CInv_dead_satellites cs cid :
+    CInv cs -> cnrs cs !! cid = None ->
+    eacls cs !! cid = None /\ aliases cs !! cid = None /\ cid ∉ metas cs.
+  Proof.
+    intros HI Hn. repeat split.
+    - destruct (eacls cs !! cid) as [e|] eqn:E; [|reflexivity].
+      destruct (ci_eacl _ HI _ _ E) as [x Hx]. congruence.
+    - destruct (aliases cs !! cid) as [d|] eqn:E; [|reflexivity].
+      destruct (ci_alias _ HI _ _ E) as [[x Hx] _]. congruence.
+    - intros Hm. destruct (ci_meta _ HI _ Hm) as [x Hx]. congruence.
+  Qed.
+
+  Lemma abs_put cs blob owner c' nm meta :
+    CInv cs ->
+    abs (put_state cs blob owner c' nm meta) = reg_put (abs cs) (cid_of blob) c' nm meta.
+  Proof.
+    intros HI. set (cid := cid_of blob).
+    assert (Hc : cnrs (put_state cs blob owner c' nm meta) = <[cid := c']> (cnrs cs)).
+    { unfold put_state. destruct nm, meta; reflexivity. }
+    assert (He : eacls (put_state cs blob owner c' nm meta) = eacls cs).
+    { unfold put_state. destruct nm, meta; reflexivity. }
+    assert (Ha : aliases (put_state cs blob owner c' nm meta) =
+                 match nm with Some d => <[cid := d]> (aliases cs) | None => aliases cs end).
+    { unfold put_state. destruct nm, meta; reflexivity. }
+    assert (Hm : metas (put_state cs blob owner c' nm meta) =
+                 if meta then {[cid]} ∪ metas cs else metas cs).
+    { unfold put_state. destruct nm, meta; reflexivity. }
+    assert (Ht : tomb (put_state cs blob owner c' nm meta) = tomb cs).
+    { unfold put_state. destruct nm, meta; reflexivity. }
+    unfold reg_put. unfold abs at 1. rewrite Ht. f_equal.
+    apply map_eq. intros k. rewrite map_lookup_imap, Hc.
+    destruct (decide (k = cid)) as [->|Hne].
+    - rewrite !lookup_insert. cbn [mbind option_bind]. f_equal.
+      unfold info_of. rewrite He, Ha, Hm, abs_live.
+      destruct (cnrs cs !! cid) as [c0|] eqn:E0; cbn [fmap option_fmap option_map mbind option_bind default i_eacl i_alias i_meta info_of].
+      + f_equal.
+        * destruct nm; [rewrite lookup_insert|]; reflexivity.
+        * destruct meta; cbn [orb]; [|reflexivity].
+          apply bool_decide_eq_true. apply elem_of_union. left. apply elem_of_singleton. reflexivity.
+      + destruct (CInv_dead_satellites _ _ HI E0) as (H1 & H2 & H3). f_equal.
+        * exact H1.
+        * destruct nm; [rewrite lookup_insert|]; auto.
+        * destruct meta; cbn [orb].
+          -- apply bool_decide_eq_true. apply elem_of_union. left. apply elem_of_singleton. reflexivity.
+          -- apply bool_decide_eq_false. exact H3.
+    - rewrite !lookup_insert_ne by congruence. rewrite abs_live.
+      destruct (cnrs cs !! k) as [c0|]; [|reflexivity]. cbn. f_equal. unfold info_of. rewrite He, Ha, Hm. f_equal.
+      + destruct nm; [rewrite lookup_insert_ne by congruence|]; reflexivity.
+      + destruct meta; [|reflexivity]. apply bool_decide_ext. rewrite elem_of_union, elem_of_singleton. tauto.
+  Qed.
+
+  Lemma abs_del cs cid cn owner :
+    cnrs cs !! cid = Some cn -> abs (del_state cs cid owner) = reg_delete (abs cs) cid.
+  Proof.
+    intros Hc. unfold reg_delete. rewrite abs_live, Hc. cbn [fmap option_fmap option_map].
+    unfold abs at 1, del_state, remove_container, set_alias. cbn [cnrs oidx tomb eacls aliases metas].
+    f_equal. apply map_eq. intros k. rewrite map_lookup_imap.
+    destruct (decide (k = cid)) as [->|Hne].
+    - rewrite !lookup_delete. reflexivity.
+    - rewrite !lookup_delete_ne by congruence. rewrite abs_live.
+      destruct (cnrs cs !! k) as [c0|]; [|reflexivity]. cbn. f_equal. unfold info_of.
+      cbn [eacls aliases metas]. rewrite !lookup_delete_ne by congruence. f_equal.
+      apply bool_decide_ext. rewrite elem_of_difference, elem_of_singleton. tauto.
+  Qed.
+
+  Lemma abs_eacl cs cid cn e :
+    cnrs cs !! cid = Some cn -> abs (set_eacl_rec cs cid e) = reg_set_eacl (abs cs) cid e.
+  Proof.
+    intros Hc. unfold reg_set_eacl. rewrite abs_live, Hc. cbn [fmap option_fmap option_map].
+    unfold abs at 1, set_eacl_rec. cbn [cnrs oidx tomb eacls aliases metas].
+    f_equal. apply map_eq. intros k. rewrite map_lookup_imap.
+    destruct (decide (k = cid)) as [->|Hne].
+    - rewrite lookup_insert, Hc. cbn. unfold info_of. cbn [eacls aliases metas i_cnr i_alias i_meta].
+      rewrite lookup_insert. reflexivity.
+    - rewrite lookup_insert_ne by congruence. rewrite abs_live.
+      destruct (cnrs cs !! k) as [c0|]; [|reflexivity]. cbn. unfold info_of. cbn [eacls aliases metas].
+      rewrite lookup_insert_ne by congruence. reflexivity.
+  Qed.
+
+  (** One successful invocation = the spec's effect. *)
+  Lemma wexec_refines c w o w' r ns :
+    CInv (w_c w) -> wexec c w o = Halt (w', r, ns) ->
+    abs (w_c w') = spec_apply cid_of (nroot (w_c w)) (abs (w_c w)) o.
+  Proof.
+    intros HI H. destruct (put_shape o) as [[[[[[blob sig] pub] tok] name] zone]|] eqn:Hs.
+    { destruct (put_state_eq _ _ _ _ _ _ _ _ _ _ _ _ Hs H) as (owner & Ho & Hd & ->).
+      rewrite abs_put by exact HI.
+      destruct o; try discriminate; injection Hs as <- <- <- <- <- <-; reflexivity. }
+    destruct o; try discriminate.
+    - cbn [Container.wexec] in H. obind H as [w1 ns1] E. injection H as <- _ _. cbn [spec_apply].
+      destruct (del_state_eq _ _ _ _ _ _ _ HI E) as [(Hn & -> & _)|(cn & owner & Hc & Ho & _ & -> & _)].
+      + unfold reg_delete. rewrite abs_live, Hn. reflexivity.
+      + eapply abs_del; eauto.
+    - cbn [Container.wexec] in H. obind H as [w1 ns1] E. injection H as <- _ _. cbn [spec_apply].
+      destruct (set_eacl_inv _ _ _ _ _ _ _ _ E) as [cid cn owner Hcid Hc _ _ _ -> _]. cbn [w_c].
+      rewrite Hcid. eapply abs_eacl; eauto.
+    - destruct (wexec_other _ _ _ _ _ _ Hs ltac:(discriminate) ltac:(discriminate) H) as [-> _]. reflexivity.
+    - destruct (wexec_other _ _ _ _ _ _ Hs ltac:(discriminate) ltac:(discriminate) H) as [-> _]. reflexivity.
+    - destruct (wexec_other _ _ _ _ _ _ Hs ltac:(discriminate) ltac:(discriminate) H) as [-> _]. reflexivity.
+    - destruct (wexec_other _ _ _ _ _ _ Hs ltac:(discriminate) ltac:(discriminate) H) as [-> _]. reflexivity.
+    - destruct (wexec_other _ _ _ _ _ _ Hs ltac:(discriminate) ltac:(discriminate) H) as [-> _]. reflexivity.
+  Qed.
+
+  (** The spec run: apply the effect of every call that did not fault. *)
+  Fixpoint spec_run (root : bytes) (w : world) (r : registry) (ops : list (cctx * wop)) : registry :=
+    match ops with
+    | [] => r
+    | co :: rest =>
+        let '(w', res, _) := wstep w co in
+        spec_run root w' (if val_eqb res VFault then r else spec_apply cid_of root r (snd co)) rest
+    end.
+
+  Lemma wrun_refines w ops :
+    CInv (w_c w) ->
+    abs (w_c (wrun_from w ops)) = spec_run (nroot (w_c w)) w (abs (w_c w)) ops.
+  Proof.
+    unfold Container.wrun_from. revert w. induction ops as [|co ops IH]; intros w HI; [reflexivity|].
+    cbn [fold_left spec_run].
+    destruct (wstep_CInv w co HI) as [H1 H2].
+    destruct (wstep_cases cid_of b58 w co) as [(w' & r & ns & He & Hw)|(_ & Hw)]; rewrite Hw in *; cbn [fst] in *.
+    - rewrite IH by exact H1. rewrite H2.
+      assert (Hr : val_eqb r VFault = false).
+      { pose proof (wexec_ret _ _ _ _ _ _ _ _ He) as Hr. destruct r; try reflexivity. congruence. }
+      rewrite Hr. destruct co as [c o]. cbn [fst snd] in *.
+      rewrite (wexec_refines _ _ _ _ _ _ HI He). reflexivity.
+    - rewrite IH by exact HI. reflexivity.
+  Qed.
+
+  (** ** The read API is the registry's *)
+
+  Lemma CInv_nonempty cs cid c : CInv cs -> cnrs cs !! cid = Some c -> nonempty (c_val c) = true.
+  Proof.
+    intros HI Hc. destruct (ci_cnr _ HI _ _ Hc) as (_ & o & Ho & _). eapply owner_blob_nonempty; eauto.
+  Qed.
+
+  Lemma get_spec cs cid : CInv cs -> get cs cid = spec_get (abs cs) cid.
+  Proof.
+    intros HI. unfold get, spec_get. rewrite abs_live.
+    destruct (cnrs cs !! cid) as [c|] eqn:E; [|reflexivity]. cbn.
+    rewrite (CInv_nonempty _ _ _ HI E). reflexivity.
+  Qed.
+
+  Lemma get_owner_by_id_spec cs cid :
+    CInv cs ->
+    get_owner_by_id cs cid =
+      match cnrs cs !! cid with
+      | Some c => Halt (match owner_of_blob (c_val c) with Halt o => Some o | Fault => None end)
+      | None => Halt None
+      end /\
+    (forall c, cnrs cs !! cid = Some c -> exists o, owner_of_blob (c_val c) = Halt o).
+  Proof.
+    intros HI. split.
+    - unfold get_owner_by_id. destruct (cnrs cs !! cid) as [c|] eqn:E; [|reflexivity].
+      rewrite (CInv_nonempty _ _ _ HI E). destruct (ci_cnr _ HI _ _ E) as (_ & o & Ho & _).
+      unfold owner_is in Ho. rewrite Ho. reflexivity.
+    - intros c E. destruct (ci_cnr _ HI _ _ E) as (_ & o & Ho & _). eauto.
+  Qed.
+
+  Lemma owner_spec cs cid : CInv cs -> owner cs cid = spec_owner (abs cs) cid.
+  Proof.
+    intros HI. unfold owner, spec_owner. rewrite abs_live.
+    destruct (get_owner_by_id_spec cs cid HI) as [-> Hex].
+    destruct (cnrs cs !! cid) as [c|] eqn:E; [|reflexivity]. cbn.
+    destruct (Hex c eq_refl) as [o ->]. reflexivity.
+  Qed.
+
+  Lemma alias_spec cs cid : CInv cs -> alias cs cid = spec_alias (abs cs) cid.
+  Proof.
+    intros HI. unfold alias, spec_alias. rewrite abs_live.
+    destruct (get_owner_by_id_spec cs cid HI) as [-> Hex].
+    destruct (cnrs cs !! cid) as [c|] eqn:E; [|reflexivity]. cbn.
+    destruct (Hex c eq_refl) as [o ->]. reflexivity.
+  Qed.
+
+  Lemma eacl_spec cs cid : CInv cs -> eacl cs cid = spec_eacl (abs cs) cid.
+  Proof.
+    intros HI. unfold eacl, spec_eacl. rewrite abs_live.
+    destruct (get_owner_by_id_spec cs cid HI) as [-> Hex].
+    destruct (cnrs cs !! cid) as [c|] eqn:E; [|reflexivity]. cbn.
+    destruct (Hex c eq_refl) as [o ->]. reflexivity.
+  Qed.
+
+  Lemma length_skeys {V} (m : gmap bytes V) : length (skeys m) = size m.
+  Proof.
+    rewrite (Permutation_length (skeys_perm m)), map_length. reflexivity.
+  Qed.
+
+  Lemma count_spec cs : count cs = spec_count (abs cs).
+  Proof.
+    unfold count, spec_count. rewrite length_skeys. f_equal.
+    rewrite <- !(size_dom (D := gset bytes)). f_equal. apply set_eq. intros k.
+    rewrite !elem_of_dom, abs_live, fmap_is_Some. reflexivity.
+  Qed.
+
+  (** get returns a pre-image of the id. *)
+  Lemma get_preimage cs cid c : CInv cs -> get cs cid = Halt c -> cid_of (c_val c) = cid.
+  Proof.
+    intros HI. unfold get. destruct (cnrs cs !! cid) as [c0|] eqn:E; [|discriminate].
+    destruct (nonempty (c_val c0)); [|discriminate]. intros [= <-].
+    destruct (ci_cnr _ HI _ _ E) as (-> & _). reflexivity.
+  Qed.
+
+  (** Every getter reports 'not found' for ids that are not live (no invariant needed). *)
+  Lemma not_found cs cid :
+    cnrs cs !! cid = None ->
+    get cs cid = Fault /\ owner cs cid = Fault /\ alias cs cid = Fault /\ eacl cs cid = Fault.
+  Proof.
+    intros H. unfold get, owner, alias, eacl, get_owner_by_id. rewrite H. auto.
+  Qed.
+
+  (** *** Listings *)
+  Lemma sentries_fst {V} (m : gmap bytes V) : fst <$> sentries m = skeys m.
+  Proof.
+    unfold sentries. assert (H : forall k, k ∈ skeys m -> is_Some (m !! k)) by (intros k; apply elem_of_skeys).
+    induction (skeys m) as [|k l IH]; [reflexivity|]. cbn [omap list_omap].
+    destruct (H k ltac:(left)) as [v Hv]. rewrite Hv. cbn. f_equal. apply IH. intros k' Hk'. apply H. right. exact Hk'.
+  Qed.
+
+  Lemma elem_of_sentries {V} (m : gmap bytes V) k v : (k, v) ∈ sentries m <-> m !! k = Some v.
+  Proof.
+    unfold sentries. rewrite elem_of_list_omap. split.
+    - intros (k' & _ & H). destruct (m !! k') as [v'|] eqn:E; [|discriminate]. cbn in H. congruence.
+    - intros H. exists k. split; [apply elem_of_skeys; eauto|]. rewrite H. reflexivity.
+  Qed.
+
+  Lemma NoDup_sentries {V} (m : gmap bytes V) : NoDup (sentries m).
+  Proof. apply (NoDup_fmap_1 fst). rewrite sentries_fst. apply NoDup_skeys. Qed.
+
+  Lemma elem_of_find_vals {V} (p : bytes) (m : gmap bytes V) (v : V) :
+    v ∈ find_vals p m <-> exists k, m !! k = Some v /\ is_prefix p k = true.
+  Proof.
+    unfold find_vals. rewrite elem_of_list_In, in_map_iff. split.
+    - intros ([k v'] & <- & H). apply filter_In in H as [H1 H2]. cbn in *.
+      apply elem_of_list_In, elem_of_sentries in H1. eauto.
+    - intros (k & H1 & H2). exists (k, v). split; [reflexivity|]. apply filter_In. split; [|exact H2].
+      apply elem_of_list_In, elem_of_sentries. exact H1.
+  Qed.
+
+  Lemma is_prefix_app_short (p a b : bytes) :
+    (length p <= length a)%nat -> is_prefix p (a ++ b) = is_prefix p a.
+  Proof.
+    revert a. induction p as [|x p IH]; intros a Hl; [reflexivity|].
+    destruct a as [|y a]; [cbn in Hl; lia|]. cbn. f_equal. apply IH. cbn in Hl. lia.
+  Qed.
+
+  Lemma containers_of_spec cs p cid :
+    CInv cs -> (length p <= 25)%nat ->
+    cid ∈ containers_of cs p <-> spec_owned (abs cs) p cid.
+  Proof.
+    intros HI Hp. unfold containers_of, spec_owned. rewrite elem_of_find_vals. split.
+    - intros (k & Hk & Hpre). destruct (ci_idx _ HI _ _ Hk) as (c & o & Hc & Ho & ->).
+      exists (info_of cs cid c), o. rewrite abs_live, Hc. split; [reflexivity|]. split; [exact Ho|].
+      rewrite is_prefix_app_short in Hpre; [exact Hpre|]. rewrite (owner_is_len _ _ Ho). exact Hp.
+    - intros (i & o & Hl & Ho & Hpre). rewrite abs_live in Hl.
+      destruct (cnrs cs !! cid) as [c|] eqn:Hc; [|discriminate]. injection Hl as <-. cbn in Ho.
+      destruct (ci_cnr _ HI _ _ Hc) as (_ & o' & Ho' & Hi).
+      unfold owner_is in Ho'. rewrite Ho in Ho'. injection Ho' as <-.
+      exists (o ++ cid). split; [exact Hi|]. rewrite is_prefix_app_short; [exact Hpre|].
+      rewrite (owner_of_blob_length _ _ Ho). exact Hp.
+  Qed.
+
+  Lemma containers_of_nodup cs p : CInv cs -> NoDup (containers_of cs p).
+  Proof.
+    intros HI. unfold containers_of, find_vals.
+    apply NoDup_fmap_2_strong.
+    - intros [k1 v1] [k2 v2] H1 H2 Hv. cbn in Hv. subst v2.
+      apply elem_of_list_In, filter_In in H1 as [H1 _]. apply elem_of_list_In, filter_In in H2 as [H2 _].
+      apply elem_of_list_In, elem_of_sentries in H1, H2.
+      destruct (ci_idx _ HI _ _ H1) as (c1 & o1 & Hc1 & Ho1 & ->).
+      destruct (ci_idx _ HI _ _ H2) as (c2 & o2 & Hc2 & Ho2 & ->).
+      pose proof (eq_trans (eq_sym Hc1) Hc2) as Heq. injection Heq as <-.
+      rewrite (owner_is_fun _ _ _ Ho1 Ho2). reflexivity.
+    - apply NoDup_ListNoDup, List.NoDup_filter, NoDup_ListNoDup, NoDup_sentries.
+  Qed.
+
+  (** [list] of an empty owner: all live ids, ascending, without duplicates;
+      of a non-empty owner: [containersOf]. *)
+  Lemma list_all_spec cs cid :
+    cid ∈ list_cnrs cs [] <-> is_Some (live (abs cs) !! cid).
+  Proof.
+    unfold list_cnrs. cbn [nonempty]. rewrite elem_of_skeys, abs_live, fmap_is_Some. reflexivity.
+  Qed.
+
+  Lemma list_all_sorted cs : Sorted bytes_le (list_cnrs cs []) /\ NoDup (list_cnrs cs []).
+  Proof. unfold list_cnrs. cbn [nonempty]. split; [apply Sorted_skeys|apply NoDup_skeys]. Qed.
+
+  Lemma list_owner_eq cs p : nonempty p = true -> list_cnrs cs p = containers_of cs p.
+  Proof. unfold list_cnrs, containers_of. intros ->. reflexivity. Qed.
+
+  (** ** Deletion removes every trace in the Container storage *)
+  Lemma del_state_clean cs cid cn owner :
+    CInv cs -> cnrs cs !! cid = Some cn -> owner_is cn owner ->
+    let cs' := del_state cs cid owner in
+    cnrs cs' !! cid = None /\ eacls cs' !! cid = None /\ aliases cs' !! cid = None /\
+    cid ∉ metas cs' /\ cid ∈ tomb cs' /\
+    (forall k v, oidx cs' !! k = Some v -> v <> cid /\ exists o, length o = 25%nat /\ k = o ++ v).
+  Proof.
+    intros HI Hc Ho cs'. pose proof (CInv_del_state _ _ _ _ HI Hc Ho) as HI'.
+    assert (Hn : cnrs cs' !! cid = None) by apply lookup_delete.
+    split; [exact Hn|]. destruct (CInv_dead_satellites _ _ HI' Hn) as (H1 & H2 & H3).
+    split; [exact H1|]. split; [exact H2|]. split; [exact H3|]. split.
+    { subst cs'. unfold del_state, remove_container. cbn [tomb]. apply elem_of_union. left.
+      apply elem_of_singleton. reflexivity. }
+    intros k v Hk. destruct (ci_idx _ HI' _ _ Hk) as (c0 & o0 & Hc0 & Ho0 & ->).
+    split; [|exists o0; split; [eapply owner_is_len; eauto|reflexivity]].
+    intros ->. fold cs' in Hc0. pose proof (eq_trans (eq_sym Hn) Hc0) as Heq. discriminate.
+  Qed.
+
+  (** ** Tombstones are monotone: deletion is final *)
+  Lemma wexec_tomb c w o w' r ns :
+    CInv (w_c w) -> wexec c w o = Halt (w', r, ns) -> tomb (w_c w) ⊆ tomb (w_c w').
+  Proof.
+    intros HI H. destruct (put_shape o) as [[[[[[blob sig] pub] tok] name] zone]|] eqn:Hs.
+    { destruct (put_state_eq _ _ _ _ _ _ _ _ _ _ _ _ Hs H) as (owner & Ho & Hd & ->).
+      unfold put_state. destruct (name_opt _ _ _), (meta_flag o); reflexivity. }
+    destruct o; try discriminate.
+    - cbn [Container.wexec] in H. obind H as [w1 ns1] E. injection H as <- _ _.
+      destruct (del_state_eq _ _ _ _ _ _ _ HI E) as [(_ & -> & _)|(cn & owner & Hc & Ho & _ & -> & _)]; [reflexivity|].
+      unfold del_state, remove_container. cbn [tomb set_alias]. apply union_subseteq_r.
+    - cbn [Container.wexec] in H. obind H as [w1 ns1] E. injection H as <- _ _.
+      destruct (set_eacl_inv _ _ _ _ _ _ _ _ E) as [cid cn owner _ Hc _ _ _ -> _]. reflexivity.
+    - destruct (wexec_other _ _ _ _ _ _ Hs ltac:(discriminate) ltac:(discriminate) H) as [-> _]. reflexivity.
+    - destruct (wexec_other _ _ _ _ _ _ Hs ltac:(discriminate) ltac:(discriminate) H) as [-> _]. reflexivity.
+    - destruct (wexec_other _ _ _ _ _ _ Hs ltac:(discriminate) ltac:(discriminate) H) as [-> _]. reflexivity.
+    - destruct (wexec_other _ _ _ _ _ _ Hs ltac:(discriminate) ltac:(discriminate) H) as [-> _]. reflexivity.
+    - destruct (wexec_other _ _ _ _ _ _ Hs ltac:(discriminate) ltac:(discriminate) H) as [-> _]. reflexivity.
+  Qed.
+
+  Lemma wrun_tomb w ops : CInv (w_c w) -> tomb (w_c w) ⊆ tomb (w_c (wrun_from w ops)).
+  Proof.
+    unfold Container.wrun_from. revert w. induction ops as [|co ops IH]; intros w HI; [reflexivity|].
+    cbn [fold_left]. destruct (wstep_CInv w co HI) as [H1 _].
+    etransitivity; [|apply IH; exact H1].
+    destruct (wstep_cases cid_of b58 w co) as [(w' & r & ns & He & ->)|(_ & ->)]; [|reflexivity].
+    cbn [fst]. eapply wexec_tomb; eauto.
+  Qed.
+
+  Lemma delete_final w ops cid :
+    CInv (w_c w) -> cid ∈ tomb (w_c w) ->
+    let w' := wrun_from w ops in
+    cid ∈ tomb (w_c w') /\ live (abs (w_c w')) !! cid = None /\ get (w_c w') cid = Fault.
+  Proof.
+    intros HI Hd w'. destruct (wrun_CInv w ops HI) as [HI' _]. fold w' in HI'.
+    assert (Hd' : cid ∈ tomb (w_c w')) by (eapply wrun_tomb; eauto).
+    pose proof (ci_dead _ HI' _ Hd') as Hn.
+    split; [exact Hd'|]. split; [rewrite abs_live, Hn; reflexivity|].
+    apply not_found. exact Hn.
+  Qed.
+
+  (** ** Notifications *)
+  Definition cnotifs (ns : list wnotif) : list wnotif :=
+    List.filter (fun n => match n with NBal _ => false | _ => true end) ns.
+
+  Definition expected_notifs (cs : cstate) (o : wop) : list wnotif :=
+    match o with
+    | Put b _ p _ | PutNamed b _ p _ _ _ | PutMeta b _ p _ _ => [NPut (cid_of b) p]
+    | Delete cid _ _ => match cnrs cs !! cid with Some _ => [NDel cid] | None => [] end
+    | SetEACL e _ p _ => match eacl_cid e with Some cid => [NEacl cid p] | None => [] end
+    | _ => []
+    end.
+
+  Lemma cnotifs_bal l rest : cnotifs (map NBal l ++ rest) = cnotifs rest.
+  Proof. induction l as [|x l IH]; [reflexivity|]. cbn. exact IH. Qed.
+
+  Lemma cnotifs_only_bal ns : (forall n, In n ns -> exists b, n = NBal b) -> cnotifs ns = [].
+  Proof.
+    induction ns as [|n ns IH]; intros H; [reflexivity|]. cbn.
+    destruct (H n ltac:(left; reflexivity)) as [b ->]. apply IH. intros n' Hn'. apply H. right. exact Hn'.
+  Qed.
+
+  Lemma wexec_notifs c w o w' r ns :
+    CInv (w_c w) -> wexec c w o = Halt (w', r, ns) -> cnotifs ns = expected_notifs (w_c w) o.
+  Proof.
+    intros HI H. destruct (put_shape o) as [[[[[[blob sig] pub] tok] name] zone]|] eqn:Hs.
+    { destruct (put_exact _ _ _ _ _ _ _ _ _ _ _ _ _ _ Hs H) as (ow & fee & _ & _ & _ & _ & _ & _ & _ & _ & _ & _ & -> & _).
+      rewrite cnotifs_bal. destruct o; try discriminate; injection Hs as <- <- <- <- <- <-; reflexivity. }
+    destruct o; try discriminate.
+    - cbn [Container.wexec] in H. obind H as [w1 ns1] E. injection H as _ _ <-. cbn [expected_notifs].
+      destruct (del_state_eq _ _ _ _ _ _ _ HI E) as [(Hn & _ & ->)|(cn & owner & Hc & _ & _ & _ & -> & _)].
+      + rewrite Hn. reflexivity.
+      + rewrite Hc. reflexivity.
+    - cbn [Container.wexec] in H. obind H as [w1 ns1] E. injection H as _ _ <-. cbn [expected_notifs].
+      destruct (set_eacl_inv _ _ _ _ _ _ _ _ E) as [cid cn owner Hcid _ _ _ _ _ ->]. rewrite Hcid. reflexivity.
+    - destruct (wexec_other _ _ _ _ _ _ Hs ltac:(discriminate) ltac:(discriminate) H) as [_ Hb]. apply cnotifs_only_bal, Hb.
+    - destruct (wexec_other _ _ _ _ _ _ Hs ltac:(discriminate) ltac:(discriminate) H) as [_ Hb]. apply cnotifs_only_bal, Hb.
+    - destruct (wexec_other _ _ _ _ _ _ Hs ltac:(discriminate) ltac:(discriminate) H) as [_ Hb]. apply cnotifs_only_bal, Hb.
+    - destruct (wexec_other _ _ _ _ _ _ Hs ltac:(discriminate) ltac:(discriminate) H) as [_ Hb]. apply cnotifs_only_bal, Hb.
+    - destruct (wexec_other _ _ _ _ _ _ Hs ltac:(discriminate) ltac:(discriminate) H) as [_ Hb]. apply cnotifs_only_bal, Hb.
   Qed.
 End Registry.
